@@ -16,7 +16,8 @@ EXPLANATION = ("D1 no nondeterminism source reachable; D2 hash-ordered container
                "D3 an id depends only on the element (no index/len/counter/static in the hashed value); D4 shared tables are read-only after "
                "initialisation (no DerefMut on guards, no static mut, no unsafe); D5 lock-order graph acyclic (no nested acquisition)")
 DECIDED = ["D1 no nondeterminism source reachable from conversion, (de)serialisation and indicators", "D2 hash containers never order output",
-           "D3 ids depend only on the element's own definition", "D4 shared tables read-only after initialisation", "D5 no nested lock acquisition, no unsafe"]
+           "D3 ids depend only on the element's own definition", "D4 shared tables read-only after initialisation", "D5 no nested lock acquisition, no unsafe",
+           "D7 no try_lock on a shared table; an id is never hashed from a list that is being filled in the same loop"]
 UNDECIDED = ["shipped reference projects convert exactly to the shipped reference models (needs the conversion to run)",
              "bit-identical float sums across thread schedules beyond what D2-D4 imply"]
 ASSUMPTIONS = ["external crates introduce no nondeterminism beyond RandomState of std hash containers", "once_cell::Lazy and std Mutex have documented semantics"]
